@@ -310,20 +310,18 @@ def validate_header(sh):
     return r
 
 
-def thin(headers):
-    """quick tier: every header of the best-ranked base format, first and last header of every other one"""
-    keep = []
-    i = 0
-    first_base = headers[0]["base_video_format"] if headers else None
-    while i < len(headers):
-        j = i
-        while j < len(headers) and headers[j]["base_video_format"] == headers[i]["base_video_format"]:
-            j += 1
-        if headers[i]["base_video_format"] == first_base and i == 0:
-            keep.extend(range(i, j))
+def thin(headers, tid):
+    """quick tier: every header on the best-ranked base format and every header on ONE of the other base
+    formats (rotating with the configuration number, so that all base formats are covered across the run)"""
+    groups = []
+    for i, sh in enumerate(headers):
+        if groups and headers[groups[-1][0]]["base_video_format"] == sh["base_video_format"]:
+            groups[-1].append(i)
         else:
-            keep.extend(sorted(set([i, j - 1])))
-        i = j
+            groups.append([i])
+    keep = list(groups[0]) if groups else []
+    if len(groups) > 1:
+        keep += groups[1 + tid % (len(groups) - 1)]
     return keep
 
 
@@ -339,7 +337,7 @@ def exec_case(job):
         ev["gen_exc"] = common.exc_signature(ex)
         headers = []
     ev["generated"] = len(headers)
-    for i in (range(len(headers)) if full else thin(headers)):
+    for i in (range(len(headers)) if full else thin(headers, tid)):
         sh = headers[i]
         h = {"n": i, "b": int(sh["base_video_format"]), "e": project_header(sh)}
         h.update(validate_header(sh))
@@ -425,7 +423,10 @@ def judge(ctx, events, tables, nchunks, report=True):
         else:
             detail = "pcm"
             what = "decoded picture coding mode %r, requested %r" % (h["dpcm"], ev["pcm"])
-        alarms.append(("C15|%s|%s" % (b["clause"], detail), what, {"cfg": {"vp": ev["req"], "pcm": ev["pcm"], "level": ev["level"], "ft": ev["ft"]}, "header": b["h"]}))
+        sig = "C15|%s|%s" % (b["clause"], detail)
+        if b["clause"] == "RejectedLevelVersion":
+            sig += "|level%d" % ev["level"]
+        alarms.append((sig, what, {"cfg": {"vp": ev["req"], "pcm": ev["pcm"], "level": ev["level"], "ft": ev["ft"]}, "header": b["h"]}))
     return alarms, dis, ress
 
 
@@ -488,8 +489,21 @@ def run(ctx):
     scratch = tlc.mkscratch("gen")
     tables = gen_tables(scratch)
     mp = ctx.pick(1, 2)
-    res = tlc.run("SeqHeaderFormats", read_cfg("SeqHeaderFormats.cfg", MaxPerturb=mp), dump=True, coverage=False, extra_files=[tables], timeout=3000)
-    cfgs, per_stage = final_states(res.dump_path, DONE)
+    cache = os.environ.get("VERIF_C15_MODEL_CACHE")  # development aid for mutation runs: reuse the TLC output
+    cpath = os.path.join(cache, "c15_%s_%d.json" % (ctx.tier, ctx.seed)) if cache else None
+    cached = None
+    if cpath and os.path.exists(cpath):
+        import json
+
+        with open(cpath) as f:
+            cached = json.load(f)
+    if cached is None:
+        res = tlc.run("SeqHeaderFormats", read_cfg("SeqHeaderFormats.cfg", MaxPerturb=mp), dump=True, coverage=False, extra_files=[tables], timeout=3000)
+        cfgs, per_stage = final_states(res.dump_path, DONE)
+    else:
+        res = tlc.TLCResult()
+        res.generated, res.distinct, res.depth, res.cmd = cached["generated"], cached["distinct"], cached["depth"], cached["cmd"] + " [cached model output]"
+        cfgs, per_stage = cached["cfgs"], dict((int(k), v) for k, v in cached["per_stage"].items())
     phase("tlc_exhaustive")
     dims = ["Init", "ChooseBase", "ChooseSz", "ChooseCd", "ChooseSc", "ChooseFr", "ChooseAr", "ChooseCa", "ChooseSr", "ChooseCo", "ChoosePcm", "ChooseCfg"]
     res.coverage = dict((dims[s - 1], [n, n]) for s, n in sorted(per_stage.items()) if s >= 2)  # states produced per action (counted from the dump)
@@ -497,26 +511,36 @@ def run(ctx):
     if len(cfgs) != per_stage.get(DONE):
         raise RuntimeError("dump parse lost configurations")
     # the design-level deviation (known finding) must be reachable in the model, otherwise the named deviation is dead
-    dev = tlc.run("SeqHeaderFormats", read_cfg("SeqHeaderFormats.cfg", MaxPerturb=0) + "INVARIANT NoLevelVersionDeviation\n", coverage=False, extra_files=[tables], allow_invariant_violation=True, timeout=600)
-    ctx.add_tlc(dev, "deviation reachability (MaxPerturb=0, invariant NoLevelVersionDeviation expected to fail on the real table)", {"MaxPerturb": 0})
+    dev = None if ctx.quick else tlc.run("SeqHeaderFormats", read_cfg("SeqHeaderFormats.cfg", MaxPerturb=0) + "INVARIANT NoLevelVersionDeviation\n", coverage=False, extra_files=[tables], allow_invariant_violation=True, timeout=600)
+    if dev is not None:
+        ctx.add_tlc(dev, "deviation reachability (MaxPerturb=0, invariant NoLevelVersionDeviation expected to fail on the real table)", {"MaxPerturb": 0})
     rnd = random.Random(ctx.seed)
     singles = [c for c in cfgs if sum(1 for k, v in c["f"].items() if k not in ("base", "pcm") and v) <= 1]
     doubles = [c for c in cfgs if c not in singles] if mp > 1 else []
     if doubles:
         rnd.shuffle(doubles)
         doubles = doubles[:6000]
-    nsim = ctx.pick(300, 3000)
-    sim = tlc.run("SeqHeaderFormats", read_cfg("SeqHeaderFormats.cfg", MaxPerturb=8), simulate=nsim, depth=DONE + 1, seed=ctx.seed, workers=1, coverage=False, extra_files=[tables], timeout=3000)
-    walks = sim_finals(sim.sim_dir, DONE)
+    nsim = ctx.pick(150, 3000)
+    if cached is None:
+        # random walks far outside the exhaustive box (up to 8 deviating groups); level 0 only (RealLevels = FALSE)
+        sim = tlc.run("SeqHeaderFormats", read_cfg("SeqHeaderFormats.cfg", MaxPerturb=8, RealLevels="FALSE"), simulate=nsim, depth=DONE + 1, seed=ctx.seed, workers=1, coverage=False, extra_files=[tables], timeout=3000)
+        walks = sim_finals(sim.sim_dir, DONE)
+        if cpath:
+            import json
+
+            with open(cpath, "w") as f:
+                json.dump({"generated": res.generated, "distinct": res.distinct, "depth": res.depth, "cmd": res.cmd, "cfgs": cfgs, "per_stage": per_stage, "walks": walks}, f)
+    else:
+        walks = cached["walks"]
     if len(walks) < nsim // 2:
         raise RuntimeError("simulation produced only %d complete configurations" % len(walks))
     phase("tlc_deviation_and_simulate")
     todo = singles + doubles + walks
-    frac = ctx.pick(0.15, 0.5)
+    frac = ctx.pick(0.08, 0.5)
     jobs = [(i + 1, c, rnd.random() < frac) for i, c in enumerate(todo)]
     events = common.pmap(exec_case, jobs)
     phase("implementation")  # NB: CPU of pool workers is only accounted when the pool is joined
-    alarms, dis, ress = judge(ctx, events, tables, 12)
+    alarms, dis, ress = judge(ctx, events, tables, ctx.pick(8, 14))
     phase("trace_validation")
     for r in ress:
         ctx.tlc_runs.append(dict(r.summary(), name="trace validation chunk (SeqHeaderTrace)"))
@@ -539,7 +563,7 @@ def run(ctx):
             "traces_validated_against_impl": len(events),
             "evaluations": nh,
             "distinct_nontrivial": nontrivial,
-            "rule": "quick tier: of the headers of a configuration all those on the best-ranked base format and the first and last on every other base format are validated (all of them for the seeded 'fully cross-checked' configurations; thorough: for half); one evaluation = one generated sequence header serialised, validated by the real validator and judged by SeqHeaderTrace; configurations = completed choices of SeqHeaderFormats.tla (all with <= 1 deviating group%s, plus %d simulate walks with up to 8 deviating groups); distinct = (requested format, coding mode, level, base format, encoding); non-trivial = the encoding sets at least one custom flag" % (", a seeded sample of those with 2" if mp > 1 else "", len(walks)),
+            "rule": "quick tier: of the headers of a configuration all those on the best-ranked base format and all those on one other base format (rotating) are validated (all of them for the seeded 'fully cross-checked' configurations; thorough: for half); one evaluation = one generated sequence header serialised, validated by the real validator and judged by SeqHeaderTrace; configurations = completed choices of SeqHeaderFormats.tla (all with <= 1 deviating group%s, plus %d simulate walks with up to 8 deviating groups); distinct = (requested format, coding mode, level, base format, encoding); non-trivial = the encoding sets at least one custom flag" % (", a seeded sample of those with 2" if mp > 1 else "", len(walks)),
             "exhaustive": True,
             "exhaustive_note": "the TLC model is explored completely for MaxPerturb=%d; all its configurations with <= 1 deviating group are executed against the implementation%s" % (mp, "; of those with 2 a seeded sample of %d" % len(doubles) if mp > 1 else ""),
             "configurations": {"single": len(singles), "double": len(doubles), "walks": len(walks)},
@@ -555,7 +579,7 @@ def run(ctx):
             "fully_cross_checked_configurations": sum(1 for j in jobs if j[2]),
             "spec_disagreements": sum(dis.values()),
             "spec_disagreements_by_clause": dis,
-            "model_deviation_reachable": dev.invariant_violated == "NoLevelVersionDeviation",
+            "model_deviation_reachable": (dev.invariant_violated == "NoLevelVersionDeviation") if dev is not None else "not run in the quick tier",
             "binding_selftest": st,
             "samples": [
                 {"requested": events[i]["req"], "pcm": events[i]["pcm"], "level": events[i]["level"], "headers": len(events[i]["hs"]), "first_header": events[i]["hs"][0] if events[i]["hs"] else None}
